@@ -22,10 +22,14 @@ import (
 	"io"
 	"math/big"
 	"os"
+	"runtime"
 	"runtime/debug"
 	"sort"
+	"strings"
 	"sync"
+	"sync/atomic"
 	"testing"
+	"time"
 
 	"pgregory.net/rapid"
 	"verif/harness/h"
@@ -177,19 +181,72 @@ type runResult struct {
 	coins    int
 }
 
-func safeRun(o *opImpl, c *opCase, stream []byte, failAt, mode int) (res runResult) {
+func safeRun(o *opImpl, c *opCase, stream []byte, failAt, mode int) runResult {
 	rd := newScript(stream, c.Chunk, failAt, mode, c.Flags)
-	defer func() {
-		if p := recover(); p != nil {
-			if e, ok := p.(error); ok && errors.Is(e, errKeptReading) {
-				res.kept = true
+	var res runResult
+	abnormal, kept, hung := watched(func() { res.out, res.err = o.run(c, rd) })
+	if hung {
+		return runResult{panicked: abnormal} // res and rd still belong to the blocked goroutine
+	}
+	res.panicked, res.kept = abnormal, kept
+	res.consumed, res.reqs, res.coins = rd.off, rd.reqs, rd.coins
+	return res
+}
+
+// watched runs one library call under a watchdog. The calls made here take
+// milliseconds; one that has not returned after hangLimit is blocked for good
+// (a dead channel, a lock, a loop that no longer reads the source) and is
+// reported as "did not return" instead of letting the whole process run into
+// the driver's time-out, which would be no verdict at all. This is the one
+// place where the check looks at a clock, and it is one-sided: time can only
+// turn a run that never ends into a finding, never decide between two
+// outcomes of a run that ends. After the first hang of a process the limit
+// drops, so that shrinking and replaying the failing case stay affordable.
+const hangLimit = 120 * time.Second
+
+var hangSeen atomic.Bool
+
+func watched(f func()) (abnormal string, kept, hung bool) {
+	type outcome struct {
+		msg  string
+		kept bool
+	}
+	done := make(chan outcome, 1)
+	go func() {
+		var r outcome
+		defer func() {
+			if p := recover(); p != nil {
+				if e, ok := p.(error); ok && errors.Is(e, errKeptReading) {
+					r.kept = true
+				}
+				r.msg = fmt.Sprintf("panic: %v\n%s", p, debug.Stack())
 			}
-			res.panicked = fmt.Sprintf("%v\n%s", p, debug.Stack())
-		}
-		res.consumed, res.reqs, res.coins = rd.off, rd.reqs, rd.coins
+			done <- r
+		}()
+		f()
 	}()
-	res.out, res.err = o.run(c, rd)
-	return
+	limit := hangLimit
+	if hangSeen.Load() {
+		limit = 10 * time.Second
+	}
+	t := time.NewTimer(limit)
+	defer t.Stop()
+	select {
+	case r := <-done:
+		return r.msg, r.kept, false
+	case <-t.C:
+		hangSeen.Store(true)
+		buf := make([]byte, 1<<16)
+		buf = buf[:runtime.Stack(buf, true)]
+		at := ""
+		for _, g := range strings.Split(string(buf), "\n\n") { // the goroutine that sits in the library
+			if strings.Contains(g, "/gmsm/") || strings.Contains(g, "/repo/") || strings.Contains(g, "emmansun") {
+				at = g
+				break
+			}
+		}
+		return fmt.Sprintf("did not return within %v: the call is blocked\n%s", limit, at), false, true
+	}
 }
 
 // baseline is the fault-free run of a fault case's stream; memoised (a pure
@@ -282,7 +339,7 @@ func checkFidelity(o *opImpl, c *opCase, stream []byte, r *h.Rec) error {
 
 	res := safeRun(o, c, stream, -1, faultNone)
 	if res.panicked != "" {
-		return fmt.Errorf("%s panicked on a fault-free stream: %s\n%s", o.name, res.panicked, describe(o, c, stream))
+		return fmt.Errorf("%s on a fault-free stream: %s\n%s", o.name, res.panicked, describe(o, c, stream))
 	}
 	if res.err != nil {
 		return fmt.Errorf("%s failed on a fault-free stream that holds an acceptable scalar (%s): %v\n%s", o.name, ref.Hex32(exp.k), res.err, describe(o, c, stream))
@@ -384,7 +441,7 @@ func checkFault(o *opImpl, c *opCase, stream []byte, r *h.Rec) error {
 		return fmt.Errorf("%s: %s: the operation ignored the error and kept asking the source (more than %d further reads)\n%s", o.name, where, postFailLimit, describe(o, c, stream))
 	}
 	if res.panicked != "" {
-		return fmt.Errorf("%s: %s: the operation panicked: %s\n%s", o.name, where, res.panicked, describe(o, c, stream))
+		return fmt.Errorf("%s: %s: the operation ended abnormally: %s\n%s", o.name, where, res.panicked, describe(o, c, stream))
 	}
 	if res.err == nil {
 		return fmt.Errorf("%s: %s: the operation reported success (outputs %s)\n%s", o.name, where, hexVals(res.out.vals), describe(o, c, stream))
